@@ -1,0 +1,138 @@
+//go:build verif
+
+package lexer
+
+// Contracts checked by /verif/gvc (contract-based deductive verification). Comment-only file:
+// it contains no executable code and is compiled only with the `verif` build tag.
+//
+// The lexer is a machine of state functions (type stateFn). Path-sensitive facts ("on the
+// metric path l.m is set", "lexKey runs with l.start == 0 and at least one byte consumed")
+// are carried by *labels*: uninterpreted predicates over function values. A label is a
+// definition: labelling a function adds proof obligations for whoever calls it through the
+// function type and gives the function the corresponding assumption; it is never an
+// assumption about code.
+
+//@ specfunc needM(f stateFn) bool
+//@ specfunc needE(f stateFn) bool
+//@ specfunc startZero(f stateFn) bool
+//@ specfunc afterSep(f stateFn) bool
+//@ specfunc startOK(f stateFn) bool
+//@ specfunc isBound(f stateFn) bool
+//@ specfunc boundLexer(f stateFn) *Lexer
+
+//@ pred LexInv(l *Lexer) := l != nil && l.len == len(l.input) && l.pos <= l.len && len(l.input) < 4294967296 && l.MetricPool != nil
+
+//@ pred StateReq(f stateFn, l *Lexer) := (needM(f) ==> l.m != nil) && (needE(f) ==> l.e != nil) && (startZero(f) ==> l.start == 0) && (afterSep(f) ==> l.start < l.pos) && (startOK(f) ==> l.start <= l.pos) && (isBound(f) ==> boundLexer(f) == l)
+
+//@ pred Inherit(f stateFn, g stateFn) := needM(f) == needM(g) && needE(f) == needE(g) && startZero(f) == startZero(g) && afterSep(f) == afterSep(g) && startOK(f) == startOK(g) && isBound(f) == isBound(g) && boundLexer(f) == boundLexer(g)
+
+// L(f, needM, needE, startZero, afterSep, startOK): the complete label set of an unbound state function
+//@ pred L(f stateFn, nm bool, ne bool, sz bool, as bool, so bool) := needM(f) == nm && needE(f) == ne && startZero(f) == sz && afterSep(f) == as && startOK(f) == so
+
+//@ pred Done(l *Lexer) := l.err == nil ==> l.m != nil || l.e != nil
+
+//@ functype stateFn(l)
+//@   requires LexInv(l) && StateReq(self, l)
+//@   ensures  LexInv(l)
+//@   ensures  result != nil ==> StateReq(result, l)
+//@   ensures  result == nil ==> Done(l)
+//@   ensures  l.MetricPool == old(l.MetricPool)
+//@   modifies l.*, l.input[*], l.m.*, l.e.*, l.tags[*]
+
+//@ functype uintHandler(l, value) sig func(*Lexer, uint64) stateFn
+//@   requires LexInv(l) && StateReq(self, l)
+//@   ensures  LexInv(l)
+//@   ensures  result != nil ==> StateReq(result, l)
+//@   ensures  result == nil ==> Done(l)
+//@   ensures  l.MetricPool == old(l.MetricPool)
+//@   modifies l.*, l.input[*], l.m.*, l.e.*, l.tags[*]
+
+//@ func (*Lexer).next
+//@   requires LexInv(l)
+//@   ensures  LexInv(l)
+//@   ensures  old(l.pos) >= l.len ==> result == 0 && l.pos == old(l.pos)
+//@   ensures  old(l.pos) <  l.len ==> result == old(l.input[l.pos]) && l.pos == old(l.pos)+1
+//@   modifies l.pos
+
+//@ func (*Lexer).Run
+//@   requires l != nil && l.MetricPool != nil && len(input) < 4294967296
+//@   loop 1 invariant LexInv(l) && (state != nil ==> StateReq(state, l)) && (state == nil ==> Done(l))
+//@   modifies everything
+
+//@ func lexSpecial
+//@   label L(self, false, false, true, false, false) && !isBound(self)
+
+//@ func lexKeySep
+//@   label L(self, true, false, true, false, false) && !isBound(self)
+//@   loop 1 invariant LexInv(l) && base(l.input) == old(base(l.input))
+
+//@ func lexKey
+//@   label L(self, true, false, true, true, false) && !isBound(self)
+
+//@ func lexValueSep
+//@   label L(self, true, false, false, false, true) && !isBound(self)
+//@   loop 1 invariant LexInv(l) && l.start <= l.pos
+
+//@ func lexValue
+//@   label L(self, true, false, false, true, false) && !isBound(self)
+
+//@ func lexType
+//@   label L(self, true, false, false, false, false) && !isBound(self)
+
+//@ func lexMetricAttributes
+//@   label L(self, true, false, false, false, false) && !isBound(self)
+
+//@ func lexMetricAttribute
+//@   label L(self, true, false, false, false, false) && !isBound(self)
+//@   loop 1 invariant LexInv(l) && (base(l.tags) == old(base(l.tags)) || fresh(base(l.tags)))
+
+//@ func lexDatadogSpecial
+//@   label L(self, false, false, false, false, false) && !isBound(self)
+
+//@ func lexEventBody
+//@   label L(self, false, true, false, false, false) && !isBound(self)
+
+//@ func lexEventAttributes
+//@   label L(self, false, true, false, false, false) && !isBound(self)
+
+//@ func lexEventAttribute
+//@   label L(self, false, true, false, false, false) && !isBound(self)
+//@   loop 1 invariant LexInv(l) && (base(l.tags) == old(base(l.tags)) || fresh(base(l.tags)))
+
+//@ func lexEventAttribute$1
+//@   label L(self, false, true, false, false, false) && !isBound(self)
+
+//@ func lexEventAttribute$2
+//@   label L(self, false, true, false, false, false) && isBound(self) && boundLexer(self) == l
+//@ func lexEventAttribute$3
+//@   label L(self, false, true, false, false, false) && isBound(self) && boundLexer(self) == l
+//@ func lexEventAttribute$4
+//@   label L(self, false, true, false, false, false) && isBound(self) && boundLexer(self) == l
+//@ func lexEventAttribute$5
+//@   label L(self, false, true, false, false, false) && isBound(self) && boundLexer(self) == l
+//@ func lexEventAttribute$6
+//@   label L(self, false, true, false, false, false) && isBound(self) && boundLexer(self) == l
+
+//@ func lexAssert$1
+//@   label Inherit(self, next)
+//@   captures next != nil
+
+//@ func lexUint$1
+//@   label Inherit(self, handler)
+//@   captures handler != nil
+//@   loop 1 invariant LexInv(l) && l.pos >= old(l.pos)
+
+// The closure writes through `target`; it is bound to the lexer that owns that field.
+//@ func lexUint32$1
+//@   label needM(self) == needM(next) && needE(self) == needE(next) && startZero(self) == startZero(next) && afterSep(self) == afterSep(next) && startOK(self) == startOK(next)
+//@   label isBound(self) && boundLexer(self) == objOf(target)
+//@   captures fieldIs(target, Lexer.eventTitleLen) || fieldIs(target, Lexer.eventTextLen)
+//@   captures isBound(next) ==> boundLexer(next) == objOf(target)
+//@   captures next != nil
+
+//@ func seekDelimited
+//@   requires LexInv(l) && stop != 0 && delimiter != 0
+//@   ensures  LexInv(l)
+//@   ensures  l.MetricPool == old(l.MetricPool)
+//@   modifies l.pos, l.start
+//@   loop 1 invariant LexInv(l) && l.start <= l.pos
